@@ -1,18 +1,36 @@
-"""C07 — see vlib/props/boxlevel.py (DESIGN.md 4)."""
+"""C07 — box level: vlib/props/boxlevel.py; inside real searches: vlib/props/passlevel.py (DESIGN.md 4)."""
 
 from vlib.props import boxlevel as _b
 
 PROP = "C07"
-META = {"level": "exploration", "rule": _b.RULES[PROP]}
+META = {
+    "level": "exploration",
+    "rule": _b.RULES[PROP]
+    + "; plus real searches on generated problems in which every ENTAILMENT answered by a propagator is checked on the live box by brute force and the enabled-flag row after each backtrack is compared with the row saved "
+    "for that alternative (non-trivial = a search with an ENTAILMENT on a non-point box)",
+    "exhaustive_part": "every (parameters, box) of the small scope for the 12 types that can answer ENTAILMENT",
+}
+SEARCH_EXAMPLES = {"quick": 700, "thorough": 7000}
 
 
 def jobs(tier):
-    return _b.jobs(PROP, tier)
+    return _b.jobs(PROP, tier) + [{"name": "search-I", "mode": "I", "shards": 8}]
 
 
 def run(job, shard, nshards, seed, tier):
+    if job["name"] == "search-I":
+        from vlib.props import passlevel as _p
+        from vlib.run import Recorder, drive, shard_seed
+
+        rec = Recorder()
+        drive(_p.c07_search_case(tier), _p.check_c07_search, rec, shard_seed(seed, shard, 81), SEARCH_EXAMPLES[tier], shrink_budget_s=90)
+        return rec.result()
     return _b.run(PROP, job, shard, nshards, seed, tier)
 
 
 def replay(case):
+    if case.get("kind") == "search":
+        from vlib.props import passlevel as _p
+
+        return _p.check_c07_search(case)
     return _b.replay(PROP, case)
